@@ -184,6 +184,12 @@ def coalesceGlobals (dest src : Tbl) : Tbl :=
   | none, none => dest.set globalKey (.tbl .nil)
   | _, _ => dest     -- a non-table `global` on either side: skipped with a warning
 
+/-- `if _, ok := dest[name]; !ok { dest[name] = map{} }` -/
+def ensureSection (dest : Tbl) (n : String) : Tbl :=
+  match dest.get? n with
+  | none => dest.set n (.tbl .nil)
+  | some _ => dest
+
 inductive Res (α : Type) where
   | ok (a : α)
   | err (msg : String)
@@ -199,14 +205,10 @@ mutual
   def coalesceDeps (merge : Bool) : ChartList → Tbl → Res Tbl
     | .nil, dest => .ok dest
     | .cons sub rest, dest =>
-      let dest1 := match dest.get? sub.name with
-        | none => dest.set sub.name (.tbl .nil)
-        | some _ => dest
-      match dest1.get? sub.name with
+      match (ensureSection dest sub.name).get? sub.name with
       | some (.tbl dvmap) =>
-        let dvmap1 := coalesceGlobals dvmap dest1
-        match coalesce merge sub dvmap1 with
-        | .ok r => coalesceDeps merge rest (dest1.set sub.name (.tbl r))
+        match coalesce merge sub (coalesceGlobals dvmap (ensureSection dest sub.name)) with
+        | .ok r => coalesceDeps merge rest ((ensureSection dest sub.name).set sub.name (.tbl r))
         | .err e => .err e
       | _ => .err ("type mismatch on " ++ sub.name)
 end
